@@ -203,6 +203,40 @@ def c08_block_decoder(rep, crate, cfg):
     return r
 
 
+def completeness_test(crate, f, ls, i_blocks, some_block):
+    """recognise 'answer None while any per-block result is still None' in its accepted idioms:
+       (A) for b in self.blocks.iter() { if b.is_none() { return None } }
+       (B) if self.blocks.iter().any(|b| b.is_none()) { return None }      (C) if !self.blocks.iter().all(|b| b.is_some()) ..."""
+    base = N(("call", "std::slice::<impl [T]>::iter", (("deref*", ("ref", fld(i_blocks))),)))
+    for lp in ls.loops:
+        if N(lp["source"] or ("x",)) == base:
+            for c, v in lp["conds"]:
+                if N(c) == N(("call", "std::option::Option::<T>::is_none", (("item", lp["id"]),))) and v is False:
+                    return "loop"
+                if N(c) == N(("call", "std::option::Option::<T>::is_some", (("item", lp["id"]),))) and v is True:
+                    return "loop"
+    dnf = conds_of(ls, some_block)
+    for kind, meth, truth_for_some in (("any", "is_none", False), ("all", "is_some", True)):
+        for cj in dnf:
+            for c, v in cj:
+                if c[0] == "call" and isinstance(c[1], str) and c[1].endswith("Iterator::" + kind) and len(c[2]) == 2:
+                    src = c[2][0]
+                    while src[0] == "ref":
+                        src = src[1]
+                    clo = c[2][1]
+                    if N(src) != base or clo[0] != "agg" or not clo[1].startswith("closure:"):
+                        continue
+                    g = crate.fns.get(clo[1][len("closure:"):])
+                    if g is None:
+                        continue
+                    body = N(terms.TermBuilder(g).return_term())
+                    okb = body[0] == "call" and body[1].endswith("Option::<T>::" + meth) and body[2] and \
+                        terms.find(("param", 2), body[2][0]) is not None
+                    if okb and must(dnf, c, truth_for_some):
+                        return kind
+    return None
+
+
 def object_decoder(crate):
     for p, a in crate.adts.items():
         fs = a["variants"][0]["fields"] if a["kind"] == "Struct" else []
@@ -266,8 +300,22 @@ def c08_object_decoder(rep, crate, cfg):
             roles = {}
             sig = loops.signature(ls, roles)
             # result construction = events that are not the update
-            ev = [(lp, s, a) for lp, s, a in sig["events"] if s in ("extend", "truncate", "extend_from_slice", "push", "resize", "sort", "reverse")]
-            res[nm] = (ev, sig["loops"], f)
+            ev = [(s, a) for lp, s, a in sig["events"] if s in ("extend", "truncate", "extend_from_slice", "push", "resize", "sort", "reverse")]
+            # loop identities are positional: renumber the loops that appear in the events in order of first use
+            order = {}
+
+            def ren(x):
+                if x[0] == "item" and isinstance(x[1], int):
+                    order.setdefault(x[1], len(order))
+                    return ("item", order[x[1]])
+                return x
+            ev = [(s_, tuple(terms.map_term(a_, ren) for a_ in args)) for s_, args in ev]
+            # the loop(s) that produce those events, by their iteration source and carried state
+            lps = tuple(sorted({sig["loops"][lp][2:] for lp, s, a in sig["events"]
+                                if lp is not None and s in ("extend", "extend_from_slice", "push")}, key=repr))
+            somes = [b for b, t, d in return_sites(f, ls) if t[0] == "agg" and t[1].endswith("Option::Some")]
+            comp = completeness_test(crate, f, ls, i_blocks, somes[0]) if somes else None
+            res[nm] = (ev, (lps, comp is not None), f)
             # all-Some test: return None while any block is None; Some only after
             tb = ls.tb
     # R4: siblings agree
@@ -351,20 +399,10 @@ def c01_object(rep, crate, cfg):
                       "the result is the concatenation of self.blocks in index order (no reversal, no sorting, each block once)",
                       {"loop_source": fmt(ls.loops[ex[0]["loop"]]["source"])[:160] if ex and ex[0]["loop"] is not None else None}, cfg)
             # None while any block is missing
-            dnf = conds_of(ls, sb)
-            rep.check(bool(dnf), R1, f.key, "some-reachable", where, "Some return has a computable path condition", None, cfg)
-            miss = None
-            for lp in ls.loops:
-                if N(lp["source"] or ("x",)) == N(("call", "std::slice::<impl [T]>::iter", (("deref*", ("ref", fld(i_blocks))),))):
-                    # loop with an early `return None` when item.is_none()
-                    exits = []
-                    for c, v in lp["conds"]:
-                        exits.append((N(c), v))
-                    miss = exits
-            okm = miss is not None and any(c == N(("call", "std::option::Option::<T>::is_none", (("item", 0),))) and v is False for c, v in miss)
-            rep.check(okm, R1, f.key, "none-while-incomplete", where,
-                      "%s returns early (None) as soon as one block result is still None" % k.split("::")[-1],
-                      {"loop_conditions": [(fmt(c)[:80], v) for c, v in (miss or [])]}, cfg)
+            how = completeness_test(crate, f, ls, i_blocks, sb)
+            rep.check(how is not None, R1, f.key, "none-while-incomplete", where,
+                      "%s answers None as long as one block result is still None (idiom: %s)" % (k.split("::")[-1], how),
+                      {"loops": loops.render(ls)[:200]}, cfg)
     rep.floor(R1, n, 2, "result-returning methods of the object decoder", cfg)
     # block decoders are created in ascending block-number order, indexed by the packet's SBN
     newf = [f for k, f in crate.fns.items() if f.f.get("impl_self", {}).get("adt") == p and k.endswith("::new")]
